@@ -136,6 +136,8 @@ type vfStreamCfg struct {
 	PPIMode   string `json:"ppi,omitempty"`
 	DCEPEvery int    `json:"dcep,omitempty"`
 	Close     bool   `json:"close,omitempty"`
+	Mix       bool   `json:"mix,omitempty"`     // change ordering/reliability between writes
+	RecvCfg   bool   `json:"recvcfg,omitempty"` // reader side sets the same reliability params on its stream
 }
 
 // vfSpec is one scenario; it is a pure function of (property, tier, seed, index)
@@ -178,6 +180,8 @@ type vfScenarioResult struct {
 	Verdict    string           `json:"verdict"` // held | violated | inconclusive
 	Why        string           `json:"why,omitempty"`
 	Sig        string           `json:"sig,omitempty"`
+	Sigs       []string         `json:"sigs,omitempty"` // batch scenarios: signatures of the non-trivial cases inside
+	Evals      int64            `json:"evals,omitempty"` // batch scenarios: number of cases evaluated inside
 	Nontrivial bool             `json:"nontrivial"`
 	Violations []vfViolation    `json:"violations,omitempty"`
 	Counters   map[string]int64 `json:"counters,omitempty"`
@@ -207,6 +211,7 @@ type vfRes struct {
 	mech     map[string]bool
 	maxViol  int
 	witnessN int
+	sigset   map[string]bool
 }
 
 func vfNewRes(spec *vfSpec) *vfRes {
@@ -293,6 +298,18 @@ func (r *vfRes) mechs() string {
 	sort.Strings(ms)
 
 	return strings.Join(ms, "+")
+}
+
+func (r *vfRes) addSig(sig string) {
+	r.mu.Lock()
+	if r.sigset == nil {
+		r.sigset = map[string]bool{}
+	}
+	if !r.sigset[sig] && len(r.sigset) < 4096 {
+		r.sigset[sig] = true
+		r.res.Sigs = append(r.res.Sigs, sig)
+	}
+	r.mu.Unlock()
 }
 
 func (r *vfRes) nviol() int {
